@@ -240,11 +240,12 @@ def check(run: Run) -> None:
     A = _alphabet(run, I)
     if not A:
         return
-    unsupported = I.module_const(model.module_of(ZM), "_UNSUPPORTED_ZID_CHARS") if "_UNSUPPORTED_ZID_CHARS" in model.module_of(ZM).assigns else None
-    if not isinstance(unsupported, (tuple, frozenset)):
-        run.undecided("C07.R1", "_UNSUPPORTED_ZID_CHARS", "cannot evaluate the excluded-character constant")
-        return
-    unsupported = frozenset(unsupported)
+    # the excluded look-alikes: frozen from the tree this check was written against (62 alphanumerics - 11 = the 51 characters behind the statement's
+    # 135,252 = 51^2 + 51^3); the code's own constant, when it still exists under that name, is only reported next to it
+    unsupported = frozenset("IOQSgijlpqy")
+    code_const = I.module_const(model.module_of(ZM), "_UNSUPPORTED_ZID_CHARS") if "_UNSUPPORTED_ZID_CHARS" in model.module_of(ZM).assigns else None
+    if isinstance(code_const, (tuple, frozenset)) and all(isinstance(c, str) for c in code_const):
+        run.sample(dict(rule="C07.R1", code_constant="".join(sorted(code_const)), frozen_table="".join(sorted(unsupported))))
     run.sample(dict(rule="C07.R1", alphabet="".join(sorted(A)), size=len(A), unsupported="".join(sorted(unsupported))))
     for rel, nm in ((FILE_LEXER, "ZorgFileLexer"), (QUERY_LEXER, "ZorgQueryLexer")):
         lx = LexerGrammar(run.repo, rel)
